@@ -241,6 +241,14 @@ impl Ctx {
                 return;
             }
         }
+        {
+            // evidence always carries at least one written-out case, also when the run ends in a violation
+            let mut s = self.samples.lock().unwrap();
+            if s.len() < self.max_samples + 2 {
+                let text = serde_json::to_string(&case).unwrap_or_default();
+                s.push(json!({"failing_case": truncate(&text, 2000), "signature": sig}));
+            }
+        }
         let body = json!({"property": self.id, "part": part, "signature": sig, "message": f.msg, "case": case});
         let text = serde_json::to_string_pretty(&body).unwrap();
         let h = util::fnv64(text.as_bytes());
